@@ -1,12 +1,15 @@
 (* Properties/C05.v — Normal, Student-t and delta distributions are coherent and accurate.
-   ONLY statements.  Real-valued definitions: RealSpec/Normal.v (phi, Phi), RealSpec/TDist.v
-   (tkernel, tcdf, tpdf).  The ACCURACY clause ("agrees with an independent high-precision
-   evaluation to within 1e-9") is not a theorem: it is decided per case by kernel-certified
-   goals against these definitions (bin/plugins/C05.py); see meta/C05.json "partial". *)
+   ONLY statements.  Real-valued definitions: RealSpec/Normal.v (phi, Phi), RealSpec/TDistGen.v
+   (tcdf_gen, tpdf_gen: Student's t for every real nu > 0) and RealSpec/TDist.v (tcdf, tpdf: the
+   same functions for nu >= 1, the form the certificate goals use).  The ACCURACY clause
+   ("agrees with an independent high-precision evaluation to within 1e-9") is not a theorem:
+   it is decided per case by kernel-certified goals against these definitions
+   (bin/plugins/C05.py); see meta/C05.json "partial". *)
 From Coq Require Import Reals.
 From Coquelicot Require Import Coquelicot.
 From MM Require Import Base.Num Model.Dists Proofs.Dists.
-From MM Require Import RealSpec.Normal RealSpec.TDist Proofs.NormalR Proofs.TDistR.
+From MM Require Import RealSpec.Normal RealSpec.TDist RealSpec.TDistGen.
+From MM Require Import Proofs.NormalR Proofs.NormalLim Proofs.TDistR Proofs.TDistGen.
 
 (* ---- NormalDist with Sigma > 0 (over the reals) ---- *)
 (* PDF is (strictly) positive *)
@@ -24,6 +27,19 @@ Print Assumptions C05_normal_cdf_increasing.
 Theorem C05_normal_cdf_range : forall mu sigma x : R, (0 < sigma)%R -> (0 < Phi mu sigma x < 1)%R.
 Proof. exact Phi_range. Qed.
 Print Assumptions C05_normal_cdf_range.
+
+(* "tends to 0 and 1 at -inf and +inf" *)
+Theorem C05_normal_cdf_limits : forall mu sigma : R, (0 < sigma)%R ->
+  is_lim (Phi mu sigma) m_infty 0 /\ is_lim (Phi mu sigma) p_infty 1.
+Proof. intros mu sigma Hs. split; [exact (Phi_lim_m_infty mu sigma Hs) | exact (Phi_lim_p_infty mu sigma Hs)]. Qed.
+Print Assumptions C05_normal_cdf_limits.
+
+(* ... with an explicit rate: the upper tail beyond z standard units is at most 2/pi exp(-z^2/2)
+   (so Phi is within 1e-9 of 1 from 6.4 standard units on, and the Gaussian integral is sqrt(pi)/2) *)
+Theorem C05_normal_tail_bound : forall mu sigma x : R, (0 < sigma)%R -> (mu <= x)%R ->
+  (1 - Phi mu sigma x <= 2 / PI * exp (- ((x - mu) / sigma * ((x - mu) / sigma)) / 2))%R.
+Proof. exact Phi_tail_bound. Qed.
+Print Assumptions C05_normal_tail_bound.
 
 (* CDF(c-d) + CDF(c+d) = 1 about the centre c = mu *)
 Theorem C05_normal_cdf_symmetric : forall mu sigma : R, (0 < sigma)%R ->
@@ -48,27 +64,90 @@ Theorem C05_normal_standardise : forall mu sigma x : R, (0 < sigma)%R ->
 Proof. exact Phi_standard. Qed.
 Print Assumptions C05_normal_standardise.
 
-(* ---- TDist with V >= 1 (over the reals) ---- *)
-Theorem C05_t_pdf_pos : forall nu : R, (1 <= nu)%R -> forall x, (0 < tpdf nu x)%R.
-Proof. exact tpdf_pos. Qed.
+(* ---- NormalDist.InvCDF on (0,1): specification of an exact inverse ---- *)
+(* every 0 < p < 1 has exactly one quantile *)
+Theorem C05_normal_quantile_exists_unique : forall mu sigma p : R, (0 < sigma)%R -> (0 < p < 1)%R ->
+  exists x, Phi mu sigma x = p /\ forall y, Phi mu sigma y = p -> y = x.
+Proof. exact Phi_quantile_exists. Qed.
+Print Assumptions C05_normal_quantile_exists_unique.
+
+(* "InvCDF inverts CDF": ANY q with CDF(q p) = p on (0,1) is strictly increasing in p, satisfies
+   q(CDF x) = x, is the least x with CDF x >= p, and is symmetric about Mu *)
+Theorem C05_normal_invcdf_spec : forall (mu sigma : R) (q : R -> R), (0 < sigma)%R ->
+  (forall p, (0 < p < 1)%R -> Phi mu sigma (q p) = p) ->
+  (forall p1 p2, (0 < p1)%R -> (p1 < p2)%R -> (p2 < 1)%R -> (q p1 < q p2)%R) /\
+  (forall x, q (Phi mu sigma x) = x) /\
+  (forall p x, (0 < p < 1)%R -> ((p <= Phi mu sigma x)%R <-> (q p <= x)%R)) /\
+  (forall p, (0 < p < 1)%R -> q (1 - p)%R = (2 * mu - q p)%R) /\
+  q (1 / 2)%R = mu.
+Proof.
+  intros mu sigma q Hs Hq. split; [exact (quantile_increasing mu sigma q Hs Hq)|].
+  split; [exact (quantile_left_inverse mu sigma q Hs Hq)|].
+  split; [exact (quantile_galois mu sigma q Hs Hq)|].
+  split; [exact (quantile_symmetric mu sigma q Hs Hq) | exact (quantile_median mu sigma q Hs Hq)].
+Qed.
+Print Assumptions C05_normal_invcdf_spec.
+
+(* "Adjust from standard normal" (normaldist.go:124): the quantile of N(mu, sigma^2) is
+   x * sigma + mu for the standard quantile x *)
+Theorem C05_normal_invcdf_location_scale : forall (mu sigma : R) (q : R -> R), (0 < sigma)%R ->
+  (forall p, (0 < p < 1)%R -> Phi mu sigma (q p) = p) ->
+  forall q0 : R -> R, (forall p, (0 < p < 1)%R -> Phi 0 1 (q0 p) = p) ->
+  forall p, (0 < p < 1)%R -> q p = (q0 p * sigma + mu)%R.
+Proof. exact quantile_location_scale. Qed.
+Print Assumptions C05_normal_invcdf_location_scale.
+
+(* "Rand is consistent with Mu and Sigma": x -> x * sigma + mu carries a variate with distribution
+   function Phi 0 1 to one with Phi mu sigma *)
+Theorem C05_normal_rand_law : forall mu sigma z x : R, (0 < sigma)%R ->
+  ((z * sigma + mu <= x)%R <-> (z <= (x - mu) / sigma)%R) /\
+  Phi mu sigma (z * sigma + mu) = Phi 0 1 z.
+Proof. exact normal_rand_law. Qed.
+Print Assumptions C05_normal_rand_law.
+
+(* ---- TDist with EVERY real V > 0 (over the reals) ---- *)
+Theorem C05_t_pdf_pos : forall nu : R, (0 < nu)%R -> forall x, (0 < tpdf_gen nu x)%R.
+Proof. exact tpdf_gen_pos. Qed.
 Print Assumptions C05_t_pdf_pos.
 
-Theorem C05_t_cdf_monotone : forall nu : R, (1 <= nu)%R -> forall x y, (x <= y)%R -> (tcdf nu x <= tcdf nu y)%R.
-Proof. exact tcdf_monotone. Qed.
+Theorem C05_t_cdf_monotone : forall nu : R, (0 < nu)%R -> forall x y, (x <= y)%R -> (tcdf_gen nu x <= tcdf_gen nu y)%R.
+Proof. exact tcdf_gen_monotone. Qed.
 Print Assumptions C05_t_cdf_monotone.
 
-Theorem C05_t_cdf_range : forall nu : R, (1 <= nu)%R -> forall x, (0 <= tcdf nu x <= 1)%R.
-Proof. exact tcdf_range. Qed.
+Theorem C05_t_cdf_increasing : forall nu : R, (0 < nu)%R -> forall x y, (x < y)%R -> (tcdf_gen nu x < tcdf_gen nu y)%R.
+Proof. exact tcdf_gen_increasing. Qed.
+Print Assumptions C05_t_cdf_increasing.
+
+Theorem C05_t_cdf_range : forall nu : R, (0 < nu)%R -> forall x, (0 < tcdf_gen nu x < 1)%R.
+Proof. exact tcdf_gen_range. Qed.
 Print Assumptions C05_t_cdf_range.
 
-Theorem C05_t_cdf_symmetric : forall nu : R, (1 <= nu)%R -> forall x, (tcdf nu (- x) + tcdf nu x = 1)%R.
-Proof. exact tcdf_symmetric. Qed.
+Theorem C05_t_cdf_limits : forall nu : R, (0 < nu)%R ->
+  is_lim (tcdf_gen nu) m_infty 0 /\ is_lim (tcdf_gen nu) p_infty 1.
+Proof. intros nu Hnu. split; [exact (tcdf_gen_lim_m_infty nu Hnu) | exact (tcdf_gen_lim_p_infty nu Hnu)]. Qed.
+Print Assumptions C05_t_cdf_limits.
+
+Theorem C05_t_cdf_symmetric : forall nu : R, (0 < nu)%R -> forall x, (tcdf_gen nu (- x) + tcdf_gen nu x = 1)%R.
+Proof. exact tcdf_gen_symmetric. Qed.
 Print Assumptions C05_t_cdf_symmetric.
 
-Theorem C05_t_pdf_integral : forall nu : R, (1 <= nu)%R ->
-  forall a b, RInt (tpdf nu) a b = (tcdf nu b - tcdf nu a)%R.
-Proof. exact tcdf_is_integral_of_tpdf. Qed.
+Theorem C05_t_pdf_integral : forall nu : R, (0 < nu)%R ->
+  forall a b, RInt (tpdf_gen nu) a b = (tcdf_gen nu b - tcdf_gen nu a)%R.
+Proof. exact tcdf_gen_is_integral_of_tpdf_gen. Qed.
 Print Assumptions C05_t_pdf_integral.
+
+(* the normalising constant of RealSpec/TDistGen.v, defined by J(nu) = (nu+1)/nu J(nu+2), IS the
+   improper integral int_0^(pi/2) cos^(nu-1) *)
+Theorem C05_t_norm_is_improper_integral : forall nu : R, (0 < nu)%R ->
+  filterlim (fun A => RInt (tkernel nu) 0 A) (at_left (PI / 2)) (locally (tnorm_gen nu)).
+Proof. exact tnorm_gen_is_improper. Qed.
+Print Assumptions C05_t_norm_is_improper_integral.
+
+(* for nu >= 1 these are the functions of RealSpec/TDist.v the certificate goals speak about *)
+Theorem C05_t_gen_agrees : forall nu x : R, (1 <= nu)%R ->
+  tcdf_gen nu x = tcdf nu x /\ tpdf_gen nu x = tpdf nu x.
+Proof. intros nu x Hnu. split; [exact (tcdf_gen_eq nu x Hnu) | exact (tpdf_gen_eq nu x Hnu)]. Qed.
+Print Assumptions C05_t_gen_agrees.
 
 (* ---- exact models (Q / extended reals) ---- *)
 Local Open Scope Q_scope.
@@ -86,13 +165,18 @@ Theorem C05_delta_quantile : forall T y : Q,
 Proof. exact delta_quantile. Qed.
 Print Assumptions C05_delta_quantile.
 
-(* Mean, Variance and Bounds are consistent with Mu and Sigma; Rand is the affine image of a standard variate *)
+(* Mean, Variance and Bounds are consistent with Mu and Sigma *)
 Theorem C05_normal_moments : forall mu sigma : Q,
   normal_mean mu sigma == mu /\ normal_variance mu sigma == sigma * sigma /\
   (fst (normal_bounds mu sigma) + snd (normal_bounds mu sigma)) / 2 == mu /\
   snd (normal_bounds mu sigma) - fst (normal_bounds mu sigma) == 6 * sigma.
 Proof. exact normal_moments. Qed.
 Print Assumptions C05_normal_moments.
+
+(* Rand is the affine image z * Sigma + Mu of the standard variate z drawn from the source *)
+Theorem C05_normal_rand_affine : forall mu sigma z : Q, normal_rand mu sigma z == mu + sigma * z.
+Proof. exact normal_rand_affine. Qed.
+Print Assumptions C05_normal_rand_affine.
 
 (* InvCDF special values: NaN outside [0,1], -inf at 0, +inf at 1 *)
 Theorem C05_invcdf_special_values : forall p : Q,
@@ -103,9 +187,24 @@ Theorem C05_invcdf_special_values : forall p : Q,
 Proof. exact invcdf_special_values. Qed.
 Print Assumptions C05_invcdf_special_values.
 
+(* the interior probabilities are split into Acklam's three regions by the float64 constants
+   plow = 0.02425 and phigh = 1 - plow (this is what the coverage tags of the check report) *)
+Theorem C05_invcdf_regions : forall p : Q,
+  (invcdf_region_of p = RLow <-> p < acklam_plow) /\
+  (invcdf_region_of p = RHigh <-> acklam_phigh < p) /\
+  (invcdf_region_of p = RCentral <-> acklam_plow <= p <= acklam_phigh).
+Proof. exact invcdf_regions. Qed.
+Print Assumptions C05_invcdf_regions.
+
 (* non-vacuity *)
 Example C05_delta_example :
   delta_cdf (XFin 2) (XFin 2) = XFin 1 /\ delta_cdf (XFin 2) (XFin (3 # 2)) = XFin 0 /\
   delta_pdf (XFin 2) (XFin 2) = XInf false /\ delta_invcdf (XFin 2) (XFin (1 # 2)) = XFin 2 /\
   delta_invcdf (XFin 2) (XFin (3 # 2)) = XNaN /\ normal_invcdf_special (XFin (1 # 4)) = None.
 Proof. vm_compute. repeat split; reflexivity. Qed.
+
+(* the hypothesis "q inverts the CDF on (0,1)" of the InvCDF theorems is satisfiable for every
+   mu and sigma > 0 (intermediate value theorem + the limits) *)
+Example C05_invcdf_hypothesis_satisfiable : forall mu sigma : R, (0 < sigma)%R ->
+  exists q : R -> R, forall p, (0 < p < 1)%R -> Phi mu sigma (q p) = p.
+Proof. exact quantile_hyp_satisfiable. Qed.
